@@ -1,7 +1,7 @@
 """C08 - virtual_memory() and swap_memory() follow the documented formulas."""
 from .common import *  # noqa: F401,F403
 from .common import (Contract, Registry, LoopSpec, BASE_ENV, LINUX_PY, COMMON_PY, fold_fn, h_map_is, proc_file_env,
-                     warn_env, values_of)
+                     warn_env, values_of, named)
 from vc import lib
 
 REGISTRY = Registry()
@@ -76,12 +76,26 @@ def file_of(lines, bk="bytes"):
 
 
 def h_has(it, M, key):
+    if isinstance(M, dict):
+        return key in M
     return smt.Select(M.pres, it.term(key))
 
 
 def h_get(it, M, key, default=0):
+    if isinstance(M, dict):
+        return M.get(key, default)
     tk = it.term(key)
     return Ite(smt.Select(M.pres, tk), smt.Select(M.vals, tk), it.term(default))
+
+
+def model_names(it, M, keys):
+    """stable names for presence/value of each key in counter-models"""
+    out = []
+    for k in keys:
+        nm = k.decode().rstrip(":").replace("(", "_").replace(")", "")
+        out.append(named(it, f"has_{nm}", smt.Select(M.pres, S(k))))
+        out.append(named(it, f"val_{nm}", smt.Select(M.vals, S(k))))
+    return out
 
 
 def h_warned(it, log):
@@ -189,6 +203,13 @@ def h_estimate(it, mems, W):
 
 AV_HELPERS = dict(HELPERS, estimate=h_estimate)
 
+
+def _est(it):
+    if "est" not in it.ctx.ghost:
+        it.ctx.ghost["est"] = it.fresh("est", "Int")
+        it.ctx.values.append(it.ctx.ghost["est"])
+    return it.ctx.ghost["est"]
+
 REGISTRY.add(Contract(
     "C08", LINUX_PY, "calculate_avail_vmem", setup=setup_avail, configs=[{"zoneinfo": True}, {"zoneinfo": False}],
     env=dict(BASE_ENV), helpers=AV_HELPERS,
@@ -202,7 +223,7 @@ REGISTRY.add(Contract(
         " result == estimate(mems, W))",
     ],
     canaries=["result == mems[b'MemFree:']"],
-    returns=lambda it, env: it.ctx.ghost.setdefault("est", it.fresh("est", "Int")), role="helper",
+    returns=lambda it, env: _est(it), role="helper",
     callee_ensures=[],   # callers only need: the result is *the* fallback estimate (ghost 'est')
     note="documented fallback estimate of available memory (kernel commit 34e431b0ae39), (free+cached) when "
          "its inputs are missing"))
@@ -216,8 +237,9 @@ def setup_vm(it, cfg):
     L, P, Vv, M = meminfo_setup(it)
     it.env_over.update(proc_file_env({"/meminfo": file_of(L)}))
     it.env_over.update(warn_env())
+    vals = model_names(it, M, MEMKEYS)
     return {"args": {}, "spec": {"M": M, "P": EnvFunc("P", lambda it2, x: P(x)), "Vv": EnvFunc("Vv", lambda it2, x: Vv(x))},
-            "values": [L]}
+            "values": vals}
 
 
 def h_est(it):
@@ -225,6 +247,9 @@ def h_est(it):
 
 
 def h_raw_avail(it, M):
+    if isinstance(M, dict):
+        a = M.get(b"MemAvailable:")
+        return a if a else h_est(it)
     a = smt.Select(M.vals, S(b"MemAvailable:"))
     use_kernel = And(smt.Select(M.pres, S(b"MemAvailable:")), Not(Eq(a, I(0))))
     return Ite(use_kernel, a, it.term(h_est(it)))
@@ -341,7 +366,7 @@ def setup_swap(it, cfg):
     return {"args": {}, "spec": {"M": M, "P": EnvFunc("P", lambda it2, x: P(x)), "Vv": EnvFunc("Vv", lambda it2, x: Vv(x)),
                                   "iin": iin, "iout": iout, "vin": vin, "vout": vout, "vm_ok": vm_ok,
                                   "si_total": smt.Mul(st, su), "si_free": smt.Mul(sf, su)},
-            "values": [L, vm, iin, iout, vin, vout]}
+            "values": model_names(it, M, [b"SwapTotal:", b"SwapFree:"]) + [iin, iout, vin, vout, st, sf, su]}
 
 
 class ModuleStub:
